@@ -33,6 +33,9 @@ CONSTANTS Serialised,    \* TRUE: commit holds sc.lock from C0 to its return (as
           Writes,        \* function: block -> value written to the key, or "" for none
           PreCommitted,  \* number of leading blocks already committed at the start
           Committers,    \* set of blocks committed concurrently
+          Dup,           \* subset of Committers: blocks committed TWICE concurrently (two cache objects of one block hash, e.g. a
+                         \* block executed by two goroutines); the second committer of block b is the process b'
+          DupEarly,      \* design mutant: a duplicate commit returns at once while another commit of its block is in flight
           Readers        \* function: reader id -> queried block
 
 Miss == "#miss"
@@ -62,15 +65,17 @@ VARIABLES hasMap,   \* the key has a per-block map in sc.cache
 vars == <<hasMap, bvs, links, lock, cown, cnew, cpc, rpc, rcur, rlink, rres, sched>>
 
 RIds == DOMAIN Readers
+CIds == Committers \cup {b \o "'" : b \in Dup}                 \* committer processes
+Blk(c) == IF c \in Committers THEN c ELSE SubSeq(c, 1, Len(c) - 1)   \* the block a committer process commits
 
 Init ==
   /\ hasMap = (\E i \in 1..PreCommitted : Writes[Blocks[i]] # None)
   /\ bvs = [b \in {Blocks[i] : i \in {j \in 1..PreCommitted : Writes[Blocks[j]] # None}} |-> Writes[b]]
   /\ links = {Blocks[i] : i \in 1..PreCommitted}
   /\ lock = None
-  /\ cown = [c \in Committers |-> [b \in {} |-> ""]]
-  /\ cnew = [c \in Committers |-> FALSE]
-  /\ cpc = [c \in Committers |-> "C0"]
+  /\ cown = [c \in CIds |-> [b \in {} |-> ""]]
+  /\ cnew = [c \in CIds |-> FALSE]
+  /\ cpc = [c \in CIds |-> "C0"]
   /\ rpc = [r \in RIds |-> "G1"]
   /\ rcur = [r \in RIds |-> Readers[r]]
   /\ rlink = [r \in RIds |-> FALSE]
@@ -80,26 +85,31 @@ Init ==
 Put(m, k, v) == [x \in (DOMAIN m) \cup {k} |-> IF x = k THEN v ELSE m[x]]
 
 ---------------------------------------------------------------------------
-(* committer c (block c) *)
+(* committer process c of block Blk(c) *)
+InFlight(c) == \E d \in CIds \ {c} : Blk(d) = Blk(c) /\ cpc[d] \notin {"C0", "done"}
 CStep(c) ==
+  LET b == Blk(c) IN
   /\ sched' = Append(sched, c)
   /\ UNCHANGED <<rpc, rcur, rlink, rres>>
-  /\ CASE cpc[c] = "C0" -> /\ Serialised => lock = None
-                           /\ lock' = IF Serialised THEN c ELSE lock
-                           /\ cpc' = [cpc EXCEPT ![c] = "C1"]
-                           /\ UNCHANGED <<hasMap, bvs, links, cown, cnew>>
-       [] cpc[c] = "C1" -> IF c \in links
+  /\ CASE cpc[c] = "C0" -> IF DupEarly /\ InFlight(c)
+                           THEN /\ cpc' = [cpc EXCEPT ![c] = "done"]    \* mutant: "somebody else is committing this block"
+                                /\ UNCHANGED <<hasMap, bvs, links, lock, cown, cnew>>
+                           ELSE /\ Serialised => lock = None
+                                /\ lock' = IF Serialised THEN c ELSE lock
+                                /\ cpc' = [cpc EXCEPT ![c] = "C1"]
+                                /\ UNCHANGED <<hasMap, bvs, links, cown, cnew>>
+       [] cpc[c] = "C1" -> IF b \in links
                            THEN /\ lock' = IF Serialised THEN None ELSE lock
                                 /\ cpc' = [cpc EXCEPT ![c] = "done"]   \* already committed
                                 /\ UNCHANGED <<hasMap, bvs, links, cown, cnew>>
-                           ELSE /\ cpc' = [cpc EXCEPT ![c] = IF Writes[c] = None THEN "C5" ELSE "C2"]
+                           ELSE /\ cpc' = [cpc EXCEPT ![c] = IF Writes[b] = None THEN "C5" ELSE "C2"]
                                 /\ UNCHANGED <<hasMap, bvs, links, lock, cown, cnew>>
        \* C2 cache.Get(key): use the key's map, or create one (published at C4)
        [] cpc[c] = "C2" -> /\ cnew' = [cnew EXCEPT ![c] = ~hasMap]
                            /\ cpc' = [cpc EXCEPT ![c] = "C3"]
                            /\ UNCHANGED <<hasMap, bvs, links, lock, cown>>
-       [] cpc[c] = "C3" -> /\ IF cnew[c] THEN /\ cown' = [cown EXCEPT ![c] = Put(@, c, Writes[c])] /\ bvs' = bvs
-                              ELSE /\ bvs' = Put(bvs, c, Writes[c]) /\ cown' = cown
+       [] cpc[c] = "C3" -> /\ IF cnew[c] THEN /\ cown' = [cown EXCEPT ![c] = Put(@, b, Writes[b])] /\ bvs' = bvs
+                              ELSE /\ bvs' = Put(bvs, b, Writes[b]) /\ cown' = cown
                            /\ cpc' = [cpc EXCEPT ![c] = "C4"]
                            /\ UNCHANGED <<hasMap, links, lock, cnew>>
        \* C4 cache.Add(key, map): a map created at C2 REPLACES whatever the key has by now
@@ -108,7 +118,7 @@ CStep(c) ==
                            /\ cpc' = [cpc EXCEPT ![c] = "C5"]
                            /\ UNCHANGED <<links, lock, cown, cnew>>
        \* publish the link, then return (the deferred unlock has no yield point of its own)
-       [] cpc[c] = "C5" -> /\ links' = links \cup {c}
+       [] cpc[c] = "C5" -> /\ links' = links \cup {b}
                            /\ lock' = IF Serialised THEN None ELSE lock
                            /\ cpc' = [cpc EXCEPT ![c] = "done"]
                            /\ UNCHANGED <<hasMap, bvs, cown, cnew>>
@@ -165,13 +175,13 @@ RStep(r) ==
   /\ UNCHANGED <<hasMap, links, lock, cown, cnew, cpc>>
   /\ IF Algo = "link_then_probe" THEN RStepNew(r) ELSE RStepOldFull(r)
 
-Next == (\E c \in Committers : cpc[c] # "done" /\ CStep(c)) \/ (\E r \in RIds : RStep(r))
+Next == (\E c \in CIds : cpc[c] # "done" /\ CStep(c)) \/ (\E r \in RIds : RStep(r))
 
 Spec == Init /\ [][Next]_vars
 
 ---------------------------------------------------------------------------
 Done(r) == rpc[r] = "done"
-AllDone == (\A r \in RIds : Done(r)) /\ (\A c \in Committers : cpc[c] = "done")
+AllDone == (\A r \in RIds : Done(r)) /\ (\A c \in CIds : cpc[c] = "done")
 
 \* C08: a completed lookup either misses or returns the value the block tree determines
 HitIsTruth == \A r \in RIds : Done(r) => (rres[r] = Miss \/ rres[r] = Truth(Readers[r]))
@@ -190,11 +200,16 @@ NoPoison == AllDone => \A i \in 1..Len(Blocks) : LET v == SeqGet(Blocks[i], Len(
 Found == AllDone =>
    \A c \in Committers : (Writes[c] # None /\ \A i \in 1..Idx(c) : Blocks[i] \in links) => SeqGet(c, Len(Blocks) + 1) = Writes[c]
 
+\* C08, "once a commit has returned the block's writes are found by lookups at that block": in EVERY state, for every
+\* commit call that has returned - also the second of two concurrent commits of one block, which waits for the first
+ReturnedFound == Serialised =>
+   \A c \in CIds : (cpc[c] = "done" /\ Writes[Blk(c)] # None) => SeqGet(Blk(c), Len(Blocks) + 1) = Writes[Blk(c)]
+
 View == <<hasMap, bvs, links, lock, cown, cnew, cpc, rpc, rcur, rlink, rres>>
 
 \* emission of complete schedules for replay (used with a VIEW-less configuration)
 Emit == ~AllDone \/ PrintT(<<"VERIF_HIST", ToJson([blocks |-> Blocks, writes |-> [i \in 1..Len(Blocks) |-> Writes[Blocks[i]]],
-                                                  pre |-> PreCommitted, committers |-> SetToSeq(Committers),
+                                                  pre |-> PreCommitted, committers |-> SetToSeq(CIds),
                                                   readers |-> [i \in 1..Len(SetToSeq(RIds)) |->
                                                                  <<SetToSeq(RIds)[i], Readers[SetToSeq(RIds)[i]]>>],
                                                   adv |-> ~Serialised, sched |-> sched])>>)
